@@ -40,7 +40,7 @@ Qed.
 Lemma run_petscii_good : forall cs m m', Inv09 (mt m) -> run_petscii m cs = RunOk m' -> Inv09 (mt m').
 Proof.
   unfold run_petscii. induction cs as [|c r IH]; intros m m' H R; cbn in R; [inversion R; subst; exact H|].
-  pose proof (petscii_step_good m c H) as G. destruct (petscii_step m c) as [m1|m1| |]; try discriminate; eapply IH; eauto.
+  pose proof (petscii_step_good m c H) as G. destruct (petscii_step m c) as [m1|m1|s]; try discriminate; eapply IH; eauto.
 Qed.
 Lemma c09_petscii_proof : forall music bs w h cs m',
   1 <= w <= 132 -> 1 <= h <= 60 -> run_petscii (init music bs w h) cs = RunOk m' ->
@@ -51,7 +51,7 @@ Proof.
 Qed.
 
 (* ---- C01: no character panics ------------------------------------------------------------------------------------------------------ *)
-Lemma petscii_step_np : forall m ch, W (mt m) -> NPM False (petscii_step m ch).
+Lemma petscii_step_np : forall m ch, W (mt m) -> NPM (petscii_step m ch).
 Proof.
   intros m c HW. unfold petscii_step. set (ch := c mod 256). clearbody ch. destruct (ea m =? 1).
   - unfold pet_escape. change (mt (with_e m 0 (eb m) (ec m) (ed m))) with (mt m).
@@ -64,7 +64,7 @@ Qed.
 Lemma run_petscii_np : forall cs m, W (mt m) -> exists m', run_petscii m cs = RunOk m' /\ W (mt m').
 Proof.
   unfold run_petscii. induction cs as [|c r IH]; intros m HW; cbn; [exists m; auto|].
-  pose proof (petscii_step_np m c HW) as G. destruct (petscii_step m c) as [m1|m1|s|]; try contradiction; apply IH; exact G.
+  pose proof (petscii_step_np m c HW) as G. destruct (petscii_step m c) as [m1|m1|s]; try contradiction; apply IH; exact G.
 Qed.
 (* C01 for PETSCII, full strength: every stream of any length on every screen ends in a state *)
 Lemma c01_petscii_proof : forall music bs w h cs,
